@@ -12,6 +12,7 @@ IMPORTS = ('phylib.io.traces',)
 NCH = 3
 NONE = 99
 RATE = 64.0
+SLOW = 1.0 / 300       # 600 s = 2 samples
 
 
 def cells(n, nch=NCH):
@@ -47,6 +48,7 @@ class Readers(object):
         self.cm = tmp_dir(ctx)
         d = self.cm.__enter__()
         self.readers = []   # (name, reader, dtype, supports_list)
+        self.rates = {}     # readers opened at another sampling rate than RATE
         n = sum(parts)
         full = cells(n)
         bounds = np.r_[0, np.cumsum(parts)]
@@ -59,6 +61,12 @@ class Readers(object):
             arg = paths if len(paths) > 1 else paths[0]
             r = get_ephys_reader(arg, sample_rate=RATE, dtype=dtype, n_channels=NCH, offset=offset)
             self.readers.append(('flat+%d/%s' % (offset, np.dtype(dtype).name), r, np.dtype(dtype), True))
+            if offset == 0:
+                # the same files at a sampling rate that makes the 600 s chunk TWO samples long: file lengths are
+                # then multiples of the chunk length or not (shape / n_samples / duration come from the chunk bounds)
+                r2 = get_ephys_reader(arg, sample_rate=SLOW, dtype=dtype, n_channels=NCH, offset=offset)
+                self.rates['slow/%s' % np.dtype(dtype).name] = SLOW
+                self.readers.append(('slow/%s' % np.dtype(dtype).name, r2, np.dtype(dtype), True))
         if with_single and len(parts) == 1:
             a = full.astype(np.int16)
             self.readers.append(('array', get_ephys_reader(a, sample_rate=RATE), a.dtype, True))
@@ -69,6 +77,14 @@ class Readers(object):
                 cbin, ch = make_cbin(d, full.astype(np.int16), chunk_samples=cs,
                                      sample_rate=RATE, name='c%d' % cs)
                 self.readers.append(('cbin/%d' % cs, get_ephys_reader(cbin), np.dtype(np.int16), False))
+
+        # a request OUTSIDE the domain (a row index past the end, with a column selector) before any other: whatever
+        # it does, it must leave nothing behind in the reader
+        for name, r, _, lists in self.readers:
+            try:
+                r[n, [0]] if lists else r[n]
+            except Exception:
+                pass
 
     def close(self):
         for name, r, _, _ in self.readers:
@@ -140,7 +156,7 @@ def _check_attrs(ctx, parts, rd):
     for name, reader, dtype, _ in rd.readers:
         a = attrs_of(reader)
         exp = dict(shape=[n, NCH], n_samples=n, n_channels=NCH, dtype=str(dtype),
-                   duration=n / RATE, part_bounds=bounds if not name.startswith('cbin') else [0, n])
+                   duration=n / rd.rates.get(name, RATE), part_bounds=bounds if not name.startswith('cbin') else [0, n])
         if a != exp:
             ctx.violation('attrs', '%s reader over parts %r has attributes %r, expected %r' % (
                 name, parts, a, exp), dict(parts=parts, backend=name, observed=a, expected=exp))
